@@ -261,15 +261,45 @@ Proof.
     rewrite usz_nonneg by assumption. rewrite (wr_ok e pos len _ s W Hin). reflexivity.
 Qed.
 
-(* n = the length of the slice, below 2^31 *)
-Lemma a_put_bytes_spec e off n f s : wf_env e -> i32 off -> size32 n -> LI e (s_log s) ->
-  wrpost e off n f s (a_put_bytes e off n f s).
+(* ------------------------------------------------------------------ slice arguments *)
+(* n = the length of the slice: below 2^31, or anything when the accessor converts it with a checked conversion *)
+Definition slice_ok (checked : bool) (n : Z) : Prop := size32 n \/ (checked = true /\ 0 <= n).
+
+Lemma slice_len_small chk n : size32 n -> slice_len chk n = Ok n.
 Proof.
-  intros W Ho Hn L. unfold a_put_bytes. rewrite (wrap32_size n Hn).
-  apply (a_put_spec e n off f s); auto.
+  intros H. unfold slice_len. rewrite (wrap32_size n H). unfold size32 in H.
+  destruct chk; auto. replace (n <? two31) with true by lia. reflexivity.
 Qed.
 
-Lemma a_write_spec e n f s : wf_env e -> size32 n -> LI e (s_log s) ->
+Lemma slice_len_cases chk n : slice_ok chk n -> (slice_len chk n = Ok n /\ size32 n) \/ slice_len chk n = Panic.
+Proof.
+  intros [H | [-> H]].
+  - left. split; auto. apply slice_len_small; auto.
+  - unfold slice_len. destruct (n <? two31) eqn:E; auto. left. split; auto. unfold size32. lia.
+Qed.
+
+Lemma inside_size32 e off n : wf_env e -> inside (e_cap e) off n = true -> size32 n.
+Proof.
+  intros W H. apply inside_spec in H. destruct W. unfold size32, i32, in_i32, two31 in *. lia.
+Qed.
+
+Lemma a_put_bytes_spec e off n f s : wf_env e -> i32 off -> slice_ok gen_chk_put_bytes n -> LI e (s_log s) ->
+  wrpost e off n f s (a_put_bytes e off n f s).
+Proof.
+  intros W Ho Hn L. unfold a_put_bytes.
+  destruct (slice_len_cases _ n Hn) as [[Hs Hsz] | Hs].
+  - assert (Eq : a_put_bytes e off n f s = a_put e n off f s).
+    { unfold a_put_bytes, a_put. destruct (hook_cases e off s) as [Hh | Hh].
+      - rewrite !(bindM_ok _ _ _ _ _ Hh). rewrite (bind_lift_ok _ _ _ _ Hs). reflexivity.
+      - rewrite !(bindM_panic _ _ _ _ Hh). reflexivity. }
+    fold (a_put_bytes e off n f). rewrite Eq. apply a_put_spec; auto.
+  - unfold wrpost. split; [ | split].
+    + hook_step e off s; [ | auto]. rewrite (bind_lift_panic _ _ _ Hs). auto.
+    + hook_step e off s; [ | auto]. rewrite (bind_lift_panic _ _ _ Hs). auto.
+    + intros Hin. rewrite (slice_len_small _ n (inside_size32 e off n W Hin)) in Hs. discriminate.
+Qed.
+
+Lemma a_write_spec e n f s : wf_env e -> slice_ok gen_chk_put_bytes n -> LI e (s_log s) ->
   wrpost e 0 n f s (a_write e n f s).
 Proof. intros. apply a_put_bytes_spec; auto. reflexivity. Qed.
 
@@ -459,11 +489,13 @@ Proof.
   intros Hn. eapply frame_trans; apply frame_upd; lia.
 Qed.
 
-Lemma a_put_string_spec e off n f s : wf_env e -> i32 off -> size32 n -> LI e (s_log s) ->
+Lemma a_put_string_spec e off n f s : wf_env e -> i32 off -> slice_ok gen_chk_put_string n -> LI e (s_log s) ->
   wpost e off (n + 4) s (a_put_string e off n f s).
 Proof.
-  intros W Ho Hn L. unfold a_put_string. rewrite (wrap32_size n Hn).
+  intros W Ho Hn0 L. unfold a_put_string.
   hook_step e off s; [ | unfold wpost; cbn [fst snd]; auto].
+  destruct (slice_len_cases _ n Hn0) as [[Hs Hn] | Hs];
+    [ rewrite (bind_lift_ok _ _ _ _ Hs) | rewrite (bind_lift_panic _ _ _ Hs); unfold wpost; cbn [fst snd]; auto ].
   destruct (add32_cases (e_m e) n 4) as [(l4 & Hl4 & Hi4 & Heq & Hwr) | Hl4];
     [ rewrite (bind_lift_ok _ _ _ _ Hl4) | rewrite (bind_lift_panic _ _ _ Hl4); unfold wpost; cbn [fst snd]; auto ].
   check_step e off l4 s W; [ | unfold wpost; cbn [fst snd]; auto].
@@ -485,7 +517,7 @@ Proof.
   assert (Ha : add32 (e_m e) off 4 = Ok (off + 4)) by (unfold add32, chk32; rewrite Hoff4; reflexivity).
   rewrite (bind_lift_ok _ _ _ _ Ha).
   assert (I5 : inside (e_cap e) (off + 4) n = true) by (apply inside_spec; unfold size32 in Hn; lia).
-  pose proof (a_put_bytes_spec e (off + 4) n f s1 W Hoff4 Hn L1) as (L2 & M2 & T2).
+  pose proof (a_put_bytes_spec e (off + 4) n f s1 W Hoff4 (or_introl Hn) L1) as (L2 & M2 & T2).
   specialize (T2 I5). unfold wpost. split; auto. rewrite T2.
   destruct M2 as [[M2 _] | (_ & _ & M2)]; [rewrite T2 in M2; discriminate | ].
   split; auto. rewrite M2, M1.
@@ -493,7 +525,8 @@ Proof.
   apply upd_upd_frame. unfold size32 in Hn; lia.
 Qed.
 
-Lemma a_put_string_without_length_spec e off n f s : wf_env e -> i32 off -> size32 n -> LI e (s_log s) ->
+Lemma a_put_string_without_length_spec e off n f s :
+  wf_env e -> i32 off -> slice_ok gen_chk_put_string_wl n -> LI e (s_log s) ->
   LI e (s_log (snd (a_put_string_without_length e off n f s))) /\
   match fst (a_put_string_without_length e off n f s) with
   | Panic => s_mem (snd (a_put_string_without_length e off n f s)) = s_mem s
@@ -502,12 +535,14 @@ Lemma a_put_string_without_length_spec e off n f s : wf_env e -> i32 off -> size
   | _ => False
   end.
 Proof.
-  intros W Ho Hn L. unfold a_put_string_without_length. rewrite (wrap32_size n Hn).
+  intros W Ho Hn0 L. unfold a_put_string_without_length.
   hook_step e off s; [ | auto].
+  destruct (slice_len_cases _ n Hn0) as [[Hs Hn] | Hs];
+    [ rewrite (bind_lift_ok _ _ _ _ Hs) | rewrite (bind_lift_panic _ _ _ Hs); cbn [fst snd]; auto ].
   check_step e off n s W; [ | auto].
   destruct (add32_cases (e_m e) off 4) as [(o4 & Ho4 & Hi4 & _) | Ho4];
     [ rewrite (bind_lift_ok _ _ _ _ Ho4) | rewrite (bind_lift_panic _ _ _ Ho4); cbn [fst snd]; auto ].
-  pose proof (a_put_bytes_spec e o4 n f s W Hi4 Hn L) as (L1 & M1 & _).
+  pose proof (a_put_bytes_spec e o4 n f s W Hi4 (or_introl Hn) L) as (L1 & M1 & _).
   destruct (a_put_bytes e o4 n f s) as [r s1] eqn:E. cbn [fst snd] in *.
   destruct M1 as [[-> M1] | (-> & I1 & M1)].
   - bpanic E. cbn [fst snd]. auto.
